@@ -1,16 +1,40 @@
-import PexpectModel.ExLoop
-/-! scratch: asyncio path (PatternWaiter) over the same Expecter functions -/
+import PexpectModel.ExHistory
+import PexpectModel.ExOutcome
+/-! # asyncio path: `expect_async` + `PatternWaiter` over the *same* Expecter functions
+
+`_async_w_await.py`: `existing_data()` first; if it misses, the read transport is connected / resumed and
+the call's future is awaited under `wait_for`.  While the future is pending the protocol callbacks run
+`new_data` / `eof()`; a match, an EOF or the timer ends the call and pauses the transport.  The
+transport is an explicit part of the state (`PW`), so "nothing is read while no call is outstanding"
+is a theorem about the model and not an assumption. -/
 namespace Ex
 open Py
 variable {α : Type} [DecidableEq α]
 
+/-- what the event loop delivers to the PatternWaiter -/
 inductive AEv (α : Type) where
-  | dataReceived (d : List α) | eofReceived | timeoutFired
+  | dataReceived (d : List α)     -- one `_read_ready` of the pipe transport
+  | eofReceived                   -- read() returned b''
+  | connLostEIO                   -- connection_lost(OSError(EIO)): how a pty reports the hang-up on Linux
+  | timeoutFired                  -- the timer of `wait_for`
 
 def AEv.toEv : AEv α → Ev α
   | .dataReceived d => .data d
   | .eofReceived => .eofExc
+  | .connLostEIO => .eofExc
   | .timeoutFired => .expired
+
+/-- PatternWaiter / transport state kept on the spawn object (`async_pw_transport`) -/
+structure PW where
+  connected : Bool := false      -- connect_read_pipe has been done
+  paused : Bool := true          -- the loop does not read the descriptor
+  futDone : Bool := true         -- no call is waiting
+  closed : Bool := false         -- asyncio closed the transport (and with it the spawn) after EOF
+deriving DecidableEq, Repr
+
+structure AS (α : Type) where
+  st : St α
+  pw : PW
 
 /-- events delivered while the call's future is pending -/
 def aloop (sr : Searcher α) (W : Nat) : St α → List (AEv α) → Out α × St α × List (AEv α)
@@ -20,12 +44,31 @@ def aloop (sr : Searcher α) (W : Nat) : St α → List (AEv α) → Out α × S
       | (st', .hit i b a) => (.hit i b a, st', r)          -- found(): set_result + pause_reading
       | (st', .miss) => aloop sr W st' r
   | st, .eofReceived :: r => (.eof st.B, { B := [], S := [] }, r)
+  | st, .connLostEIO :: r => (.eof st.B, { B := [], S := [] }, r)
   | st, .timeoutFired :: r => (.timeout st.B, st, r)
 
 def acall (sr : Searcher α) (W : Nat) (st : St α) (evs : List (AEv α)) : Out α × St α × List (AEv α) :=
   match existingData sr W st with
   | (st', .hit i b a) => (.hit i b a, st', evs)
   | (st', .miss) => aloop sr W st' evs
+
+/-- the transport after an awaited call: a hit on existing data does not touch it; otherwise it is
+    connected / resumed for the call and paused again when the call ends; EOF closes it -/
+def pwAfter (pw : PW) (existingHit : Bool) (o : Out α) : PW :=
+  if existingHit then pw
+  else match o with
+    | .eof _ => { connected := true, paused := true, futDone := true, closed := true }
+    | _ => { connected := true, paused := true, futDone := true, closed := pw.closed }
+
+def existingHit (sr : Searcher α) (W : Nat) (st : St α) : Bool :=
+  match (existingData sr W st).2 with
+  | .hit _ _ _ => true
+  | .miss => false
+
+/-- an awaited call on the full state -/
+def acallS (sr : Searcher α) (W : Nat) (s : AS α) (evs : List (AEv α)) : Out α × AS α × List (AEv α) :=
+  let r := acall sr W s.st evs
+  (r.1, { st := r.2.1, pw := pwAfter s.pw (existingHit sr W s.st) r.1 }, r.2.2)
 
 /-- C14, in-call parity: the awaited call and the blocking call are the same function of the same events -/
 theorem aloop_eq_loop (sr : Searcher α) (W : Nat) (evs : List (AEv α)) (st : St α) :
@@ -37,6 +80,7 @@ theorem aloop_eq_loop (sr : Searcher α) (W : Nat) (evs : List (AEv α)) (st : S
   | cons e r ih =>
     cases e with
     | eofReceived => simp [aloop, loop, AEv.toEv]
+    | connLostEIO => simp [aloop, loop, AEv.toEv]
     | timeoutFired => simp [aloop, loop, AEv.toEv]
     | dataReceived d =>
       simp only [aloop, loop, List.map_cons, AEv.toEv]
@@ -47,12 +91,36 @@ theorem aloop_eq_loop (sr : Searcher α) (W : Nat) (evs : List (AEv α)) (st : S
 
 theorem acall_eq_call (sr : Searcher α) (W : Nat) (evs : List (AEv α)) (st : St α) :
     (acall sr W st evs).1 = (call sr W st (evs.map AEv.toEv)).1 ∧
-    (acall sr W st evs).2.1 = (call sr W st (evs.map AEv.toEv)).2.1 := by
+    (acall sr W st evs).2.1 = (call sr W st (evs.map AEv.toEv)).2.1 ∧
+    (acall sr W st evs).2.2.map AEv.toEv = (call sr W st (evs.map AEv.toEv)).2.2 := by
   unfold acall call
   rcases existingData sr W st with ⟨st', r'⟩
   cases r' with
   | hit i b a => simp
-  | miss => exact ⟨(aloop_eq_loop sr W evs st').1, (aloop_eq_loop sr W evs st').2.1⟩
+  | miss => exact aloop_eq_loop sr W evs st'
+
+/-- **paused_when_idle**: after every awaited call that had to wait, the transport is paused and no
+    future is pending — so the loop reads nothing until the next call resumes it; a call answered from
+    existing data never touches the transport -/
+theorem paused_when_idle (sr : Searcher α) (W : Nat) (s : AS α) (evs : List (AEv α))
+    (h : s.pw.paused = true ∧ s.pw.futDone = true) :
+    (acallS sr W s evs).2.1.pw.paused = true ∧ (acallS sr W s evs).2.1.pw.futDone = true := by
+  unfold acallS pwAfter
+  simp only []
+  split
+  · exact h
+  · split <;> exact ⟨rfl, rfl⟩
+
+/-- the transport is closed only by an EOF outcome -/
+theorem closed_only_by_eof (sr : Searcher α) (W : Nat) (s : AS α) (evs : List (AEv α)) (hc : s.pw.closed = false)
+    (h : (acallS sr W s evs).2.1.pw.closed = true) : ∃ b, (acallS sr W s evs).1 = .eof b := by
+  unfold acallS pwAfter at h
+  simp only [] at h
+  split at h
+  · rw [hc] at h; cases h
+  · split at h
+    · rename_i b heq; exact ⟨b, by unfold acallS; simpa using heq⟩
+    · simp only [] at h; rw [hc] at h; cases h
 
 /-- data delivered after the future is done (before pause_reading takes effect): appended to both buffers -/
 def doneData (st : St α) (d : List α) : St α := { B := st.B ++ d, S := st.S ++ d }
@@ -67,6 +135,91 @@ theorem doneData_pending (st : St α) (d : List α) : (doneData st d).B = st.B +
     which empties the buffers — pending text is gone for the next call -/
 def doneEofPre (_st : St α) : St α := { B := [], S := [] }
 
-example : (doneEofPre ({ B := [104, 105], S := [104, 105] } : St Nat)).B = [] := rfl
+/-! ### histories that mix blocking and awaited calls on one object -/
+
+inductive MOp (α : Type) where
+  | sync (k : Kind α) (W : Nat)
+  | async (k : Kind α) (W : Nat)
+  | setBuffer (v : List α)
+
+def MOp.toOp : MOp α → Op α
+  | .sync k W => .call k W
+  | .async k W => .call k W
+  | .setBuffer v => .setBuffer v
+
+/-- a mixed history over one stream of loop / read events: a blocking call reads the descriptor itself
+    (each `dataReceived` is then one `read_nonblocking`), an awaited call gets the events from the loop -/
+def mrunOps : AS α → List (MOp α) → List (AEv α) → List (Out α) × AS α × List (AEv α)
+  | s, [], evs => ([], s, evs)
+  | s, .sync k W :: ops, evs =>
+      let r := acall k.sr W s.st evs          -- same function (acall_eq_call); the transport is not touched
+      let t := mrunOps { s with st := r.2.1 } ops r.2.2
+      (r.1 :: t.1, t.2.1, t.2.2)
+  | s, .async k W :: ops, evs =>
+      let r := acallS k.sr W s evs
+      let t := mrunOps r.2.1 ops r.2.2
+      (r.1 :: t.1, t.2.1, t.2.2)
+  | s, .setBuffer v :: ops, evs => mrunOps { s with st := setBuffer v } ops evs
+
+/-- **mixed_history_eq_sync**: any interleaving of blocking and awaited calls on one object reports the
+    same outcomes, leaves the same pending text and consumes the same events as the all-blocking history -/
+theorem mixed_history_eq_sync (ops : List (MOp α)) (evs : List (AEv α)) (s : AS α) :
+    (mrunOps s ops evs).1 = (runOps s.st (ops.map MOp.toOp) (evs.map AEv.toEv)).1 ∧
+    (mrunOps s ops evs).2.1.st = (runOps s.st (ops.map MOp.toOp) (evs.map AEv.toEv)).2.1 ∧
+    (mrunOps s ops evs).2.2.map AEv.toEv = (runOps s.st (ops.map MOp.toOp) (evs.map AEv.toEv)).2.2 := by
+  induction ops generalizing s evs with
+  | nil => exact ⟨rfl, rfl, rfl⟩
+  | cons op ops ih =>
+    cases op with
+    | setBuffer v =>
+      simp only [mrunOps, List.map_cons, MOp.toOp, runOps]
+      exact ih evs { s with st := setBuffer v }
+    | sync k W =>
+      obtain ⟨h1, h2, h3⟩ := acall_eq_call k.sr W evs s.st
+      simp only [mrunOps, List.map_cons, MOp.toOp, runOps]
+      obtain ⟨i1, i2, i3⟩ := ih (acall k.sr W s.st evs).2.2 { s with st := (acall k.sr W s.st evs).2.1 }
+      rw [← h1, ← h2, ← h3]
+      exact ⟨congrArg _ i1, i2, i3⟩
+    | async k W =>
+      obtain ⟨h1, h2, h3⟩ := acall_eq_call k.sr W evs s.st
+      simp only [mrunOps, List.map_cons, MOp.toOp, runOps]
+      obtain ⟨i1, i2, i3⟩ := ih (acallS k.sr W s evs).2.2 (acallS k.sr W s evs).2.1
+      rw [← h1, ← h2, ← h3]
+      exact ⟨congrArg _ i1, i2, i3⟩
+
+/-- the transport is paused between the calls of any mixed history -/
+theorem mixed_history_paused (ops : List (MOp α)) (evs : List (AEv α)) (s : AS α)
+    (h : s.pw.paused = true ∧ s.pw.futDone = true) :
+    (mrunOps s ops evs).2.1.pw.paused = true ∧ (mrunOps s ops evs).2.1.pw.futDone = true := by
+  induction ops generalizing s evs with
+  | nil => exact h
+  | cons op ops ih =>
+    cases op with
+    | setBuffer v => simp only [mrunOps]; exact ih evs _ h
+    | sync k W => simp only [mrunOps]; exact ih _ _ h
+    | async k W => simp only [mrunOps]; exact ih _ _ (paused_when_idle k.sr W s evs h)
+
+/-- an awaited call never runs past its timer: with no match and no EOF among the first `n` events and the
+    timer at position `n`, exactly `n + 1` events are consumed and the outcome is TIMEOUT with everything
+    read so far still pending -/
+theorem aloop_stops_at_timer (sr : Searcher α) (W : Nat) (pre : List (List α)) (rest : List (AEv α)) (st : St α) :
+    (∃ i b a, (aloop sr W st (pre.map .dataReceived ++ .timeoutFired :: rest)).1 = .hit i b a) ∨
+    ((aloop sr W st (pre.map .dataReceived ++ .timeoutFired :: rest)).2.2 = rest ∧
+      ∃ b, (aloop sr W st (pre.map .dataReceived ++ .timeoutFired :: rest)).1 = .timeout b) := by
+  induction pre generalizing st with
+  | nil => right; exact ⟨rfl, st.B, rfl⟩
+  | cons d ds ih =>
+    simp only [List.map_cons, List.cons_append, aloop]
+    rcases hnd : newData sr W st d with ⟨st', r'⟩
+    cases r' with
+    | hit i b a => left; exact ⟨i, b, a, rfl⟩
+    | miss => exact ih st'
+
+/-- `wait_for(fut, 0)` of CPython 3.12 on an already connected transport: the future is cancelled before the
+    loop can deliver anything, so after `existing_data()` the call times out at once (known finding) -/
+def acall0 (sr : Searcher α) (W : Nat) (st : St α) (evs : List (AEv α)) : Out α × St α × List (AEv α) :=
+  match existingData sr W st with
+  | (st', .hit i b a) => (.hit i b a, st', evs)
+  | (st', .miss) => (.timeout st'.B, st', evs)
 
 end Ex
